@@ -5,6 +5,26 @@ from collections import OrderedDict
 import numpy as np
 
 
+LAYOUTS = ['C', 'C', 'C', 'F', 'S', 'R']
+
+
+def relayout(arr, layout):
+    """The same numbers in another memory layout: 'F' Fortran order (what a transposed view has,
+    >= 2-D only), 'S' a strided view (every second element of a larger buffer along the last
+    axis: not contiguous), 'R' a view with a negative stride along the last axis."""
+    if not isinstance(arr, np.ndarray) or arr.ndim == 0:
+        return arr
+    if layout == 'F' and arr.ndim >= 2:
+        return np.asfortranarray(arr)
+    if layout == 'S':
+        big = np.zeros(arr.shape[:-1] + (2 * arr.shape[-1],), dtype=arr.dtype)
+        big[..., ::2] = arr
+        return big[..., ::2]
+    if layout == 'R':
+        return np.ascontiguousarray(arr[..., ::-1])[..., ::-1]
+    return arr
+
+
 def make_bins(shape, kinds, offsets=None):
     """Bins per dimension: kind 'e' = N+1 edges, 'c' = N centres.  All bin
     values are distinct across positions and dimensions."""
